@@ -8,6 +8,7 @@ use std::panic::{catch_unwind, AssertUnwindSafe};
 mod util;
 mod angles;
 mod collide;
+mod stats;
 mod series;
 mod frames;
 mod spatial;
@@ -41,6 +42,7 @@ fn dispatch(rec: &Value, st: &mut State) -> Value {
     match m {
         "angles" => angles::exec(rec, st),
         "collide" => collide::exec(rec, st),
+        "stats" => stats::exec(rec, st),
         "series" => series::exec(rec, st),
         "frames" => frames::exec(rec, st),
         "spatial" => spatial::exec(rec, st),
